@@ -182,3 +182,92 @@ def sysv_hash_form(F, rep, rule="hash-function"):
     okr = rt is not None and rt.op == "bin" and rt.args[0] == "BitAnd" and ((rt.args[1] is h and rt.args[2].op == "const" and rt.args[2].args[1] == 0x0fffffff)
                                                                            or (rt.args[2] is h and rt.args[1].op == "const" and rt.args[1].args[1] == 0x0fffffff))
     rep.require(okr, rule, "sysv_hash:result", w, "result masked with 0x0fffffff", "sysv_hash returns %s, expected accumulator & 0x0fffffff" % (pp(rt) if rt is not None else None))
+
+
+# ------------------------------------------------------------------ walk exits (necessary for completeness)
+def loop_exit_controls(an, header):
+    """For every edge leaving the natural loop at `header`: the switch that controls it.
+    Returns [(switch_block | None, value | 'otherwise' | None, exit_target, from_block)]."""
+    body = an.loops[header]
+    out = []
+    for b in sorted(body):
+        for t in an.succs[b]:
+            if t in body or an.blocks[t]["term"]["k"] == "unreachable":
+                continue
+            cur, nxt, ok = b, t, True
+            while an.blocks[cur]["term"]["k"] != "switch":
+                ps = [p for p in an.preds[cur] if p in body and (p, cur) not in an.back_edges]
+                if cur == header or len(ps) != 1:
+                    ok = False
+                    break
+                nxt, cur = cur, ps[0]
+            if not ok:
+                out.append((None, None, t, b))
+                continue
+            term = an.blocks[cur]["term"]
+            vals = [v for v, tb in term["targets"] if tb == nxt]
+            if term["otherwise"] == nxt:
+                vals.append("otherwise")
+            out.append((cur, vals[0] if len(vals) == 1 else None, t, b))
+    return out
+
+
+def walk_exits(an, rep, rule, key, w, stop_conditions, what):
+    """The chain walk may be left only (a) with an error of a failed read, (b) with the symbol once its name compared equal,
+    (c) on one of the enumerated end-of-chain conditions.  Any other way out loses symbols that are further down the chain."""
+    if len(an.loops) != 1:
+        rep.bad(rule, key + ":loop", w, "UNRECOGNISED: %d loops in the lookup (expected the chain walk only)" % len(an.loops))
+        return
+    header = next(iter(an.loops))
+    name, strtab = P(2), P(4)
+    n_stop = 0
+    for sw, val, tgt, frm in loop_exit_controls(an, header):
+        if sw is None or val is None:
+            rep.bad(rule, "%s:exit" % key, w, "the chain walk is left unconditionally from bb%d (not under a single branch): symbols further down the chain are never compared" % frm)
+            continue
+        d = norm(an.switches[sw])
+        ds = show(d)[:200]
+        if d[0] == "discr" and d[1][0] == "call" and d[1][1] == "ops::Try::branch":
+            ok = val == "1"   # ControlFlow::Break = the residual (error) arm
+            why = "leaves through the Continue arm of `?`"
+        elif d[0] == "Eq" and name in d[1:] and any(x[0] == "payload" and x[1][0] == "call" and x[1][1] == "string_table::StringTable::get_raw" for x in d[1:] if isinstance(x, tuple)):
+            ok = val == "otherwise"
+            why = "leaves when the name does NOT match"
+        else:
+            r = stop_conditions(d, val, sw)
+            ok = r is True
+            why = r if isinstance(r, str) else "is not one of the end-of-chain conditions (%s)" % what
+            if ok:
+                n_stop += 1
+        rep.require(ok, rule, "%s:exit|%s|%s" % (key, ds, val), w, "walk exit on %s=%s" % (ds, val),
+                    "the chain walk exits on %s = %s, which %s: a present symbol further down the chain is reported absent" % (ds, val, why))
+    rep.require(n_stop >= 1, rule, key + ":stops", w, "%d end-of-chain exits" % n_stop, "no end-of-chain exit recognised in the chain walk")
+
+
+def counter_phi(an, header):
+    """phis at `header` that start at 0 and advance by at most 1 on every back edge (so a bound `< n` allows at least n steps;
+    whether the counter advances at all is the termination property C16's concern, not completeness)"""
+    body = an.loops[header]
+    out = []
+    for ph, ops in an.phi_ops.items():
+        if ph.args[0][1] != header:
+            continue
+        ent = [norm(v) for p, v in ops.items() if p not in body]
+        bk = [norm(v) for p, v in ops.items() if p in body]
+        if ent == [C(0)] and bk and all(x in (ADD(norm(ph), C(1)), norm(ph)) for x in bk):
+            out.append(norm(ph))
+    return out
+
+
+def range_of_next(an, sw):
+    """if the switch at `sw` tests the result of Iterator::next on a `a..b` range created by into_iter: (a, b) normal forms"""
+    hdr = next(iter(an.loops))
+    nexts = [c for c in an.calls() if c.declared_norm == "iter::Iterator::next" and c.block in an.loops[hdr] and an.dominates(c.block, sw)]
+    if not nexts:
+        return None
+    for c in an.calls():
+        if c.declared_norm == "iter::IntoIterator::into_iter":
+            a0 = norm(c.arg_values()[0])
+            if a0[0] == "agg" and a0[1] == "ops::Range":
+                return a0[3]
+    return None
